@@ -161,6 +161,17 @@ PROPS["C02"] = dict(
     level_note='Trusted: Coq kernel + vm_compute; the hand-written small-step model of event_bus.go / persistEvent (flat registry; sync.Mutex, RWMutex, WaitGroup, atomic CAS, goroutine creation and recover are modelled as atomic micro-steps); the controller harness (parks goroutines at user-code callbacks, reads goroutine states from runtime.Stack) and the replay of its log on the model (Bus/BusRun.v); the oracle Corr/BusOracle.v; interleavings strictly inside bus code are not forced by the controller.',
     rule='cases = seeded random programs (threads, handler/filter/hook bodies that call back into the bus, options) run on the real bus under the controller with a seeded random schedule; every run is replayed on the Coq model along the controller log and judged by the oracle; directed witness programs run first; C02: 2-4 goroutines x 2-7 operations on 1-3 shared types, random control-point interleavings; non-trivial = every case; distinct = distinct program+schedule',
 )
+PROPS["C03"] = dict(
+    title='Concurrent use of the API is free of data races and deadlocks',
+    theorems="Properties/C03.v",
+    proof_files=["Bus/BusModel.v", "Bus/BusRun.v", "Bus/BusInv.v", "Properties/C03.v"],
+    suites=[dict(name="race", mod="core", family="race", corr="Corr.CorrRace", check="check03r", shard=200, race=True, timeout=2400, crash_is_failure=True),
+            dict(name="bus03", mod="core", family="bus03", corr="Corr.BusOracle", check="check03d", shard=25),
+            dict(name="buscon", mod="core", family="buscon", corr="Corr.BusOracle", check="check03d", shard=25)],
+    level_text='Partial. Data-race half: NOT a theorem (the Go memory model is outside the Gallina model, whose micro-steps are atomic); sampled by free-running mixes of every kind of public API call (publish, subscribe, unsubscribe, clear, queries, Wait, Replay, upcast registry, the bundled stores directly, SubscribeWithReplay, the state materializer) from 2-8 goroutines with re-entrant handlers and hooks, under the Go race detector, with a watchdog for global blocking and a count of panics escaping an API call. Deadlock half, proved in Coq on the small-step bus model over every schedule: a Sequential handler mutex has a single owner who still carries the matching deferred unlock; Wait and Shutdown wait exactly on the number of running deliveries; only five instructions can block at all; the documented exception (a synchronous Sequential handler whose publish is delivered back to itself) is exhibited as a reachable blocked state. Not proved: full progress (some goroutine can always step) outside the exception. Tied to the code by controller-driven runs (suites bus03, buscon) in which every thread the real bus leaves blocked must be blocked in the model too and must be waiting for a mutex it holds itself.',
+    level_note='Trusted: Coq kernel + vm_compute; the Go race detector (finds only races that the sampled interleavings execute); the hand-written small-step model of event_bus.go and the controller harness (see C01); the watchdog budget of 30 s per case.',
+    rule='race suite: cases = seeded mixes, 2-8 goroutines x 25-75 calls (thorough 40-160), GOMAXPROCS in {1,2,4,16}, store none/memory/SQLite in-memory, Sequential handlers never call back (self-delivery is the documented exception); bus03/buscon: seeded random programs under the controller, three directed programs first (self-delivery, indirect self-delivery, re-entrant subscribe/unsubscribe/clear/publish from handler, filter and hooks); non-trivial = every case; distinct = distinct program',
+)
 PROPS["C04"] = dict(
     title='A Once handler fires at most once, and exactly once when eligible',
     theorems="Properties/C04.v",
